@@ -930,3 +930,18 @@ Proof.
   rewrite Hf, Hd. unfold can_push. apply Nat.ltb_lt in Hl. rewrite Hl; cbn [negb].
   eexists; split; [reflexivity|]. cbn. auto.
 Qed.
+
+(** a pending drain is acknowledged by the next drain stage once nothing is in
+    flight and the control port has room *)
+Lemma drain_progress c s d :
+  draining s = true -> fully_drained s = true -> cur s = Some d ->
+  bad_dst P_CT (m_src d) = false -> (length (ct_out s) < bufsz c)%nat ->
+  let s' := fst (drain c s) in
+  ct_out s' = ct_out s ++ [ctl_rsp FL_DRAIN_RSP d] /\ draining s' = false /\
+  txs (ch_in s') = [] /\ txs (ch_out s') = [].
+Proof.
+  intros Hd Hf Hc Hb Hl. unfold drain. rewrite Hd, Hf, Hc, Hb; cbn [negb].
+  unfold can_push. apply Nat.ltb_lt in Hl. rewrite Hl. cbn.
+  unfold fully_drained in Hf. destruct (txs (ch_out s)); [|discriminate].
+  destruct (txs (ch_in s)); [auto|discriminate].
+Qed.
